@@ -432,10 +432,14 @@ def explore(
                 break
             stats[str(status)] += 1
             decisions += len(space.choices_made)
-            if ctx is not None:
+            hc = sys.modules.get('harness.common')
+            if hc is not None:
+                ops += hc.OPS_EXECUTED[0]
+                hc.OPS_EXECUTED[0] = 0
+            elif ctx is not None:
                 ops += ctx.ops
-                if status == VerificationStatus.CONFIRMED:
-                    covered.update(ctx.covered)
+            if ctx is not None and status == VerificationStatus.CONFIRMED:
+                covered.update(ctx.covered)
             top, exhausted = space.bubble_status(CallAnalysis(status))
             if status == VerificationStatus.REFUTED:
                 assert viol is not None
